@@ -27,6 +27,7 @@ import (
 // a fixture is a fresh shared instance; call performs method m once with arguments drawn from rng.
 type fixture interface {
 	call(m string, rng *rand.Rand, g int) bool // false: unknown method
+	methods() []string                          // every method the fixture can drive (used to probe for a leaked lock)
 }
 
 // ---------------------------------------------------------------- fork choice
@@ -56,9 +57,21 @@ func newFcFix(rng *rand.Rand) fixture {
 	return f
 }
 
+func (f *fcFix) methods() []string {
+	return []string{"Pin", "SetPin", "UpdateJustified", "Justified", "Finalized", "ProcessAttestation", "CanonicalChain",
+		"ProcessSlot", "ProcessBlock", "InSubtree", "Search", "ClosestToSlot", "CanonAtSlot", "GetSlot", "FindHead", "Head"}
+}
+
 func (f *fcFix) call(m string, rng *rand.Rand, g int) bool {
 	r := f.roots[rng.Intn(len(f.roots))]
-	slotOf := map[int]int{1: 0, 2: 1, 3: 2, 4: 3}
+	slotOf := map[int]int{1: 0, 2: 1, 3: 2, 4: 3, 77: 5}
+	// error / early-return paths need arguments the object refuses: an unknown root, a slot that is not a node
+	switch rng.Intn(4) {
+	case 0:
+		r = 77
+	case 1:
+		slotOf = map[int]int{1: 9, 2: 0, 3: 9, 4: 0, 77: 5}
+	}
 	switch m {
 	case "Pin":
 		f.fc.Pin()
@@ -71,17 +84,30 @@ func (f *fcFix) call(m string, rng *rand.Rand, g int) bool {
 			fin = common.Checkpoint{Epoch: 1, Root: mkRoot(2)}
 			j = common.Checkpoint{Epoch: 1, Root: mkRoot(2)}
 		}
-		f.fc.UpdateJustified(context.Background(), mkRoot(4), j, fin, func() ([]forkchoice.Gwei, error) { return gweis([]int{10, 20, 32, 5}), nil })
+		trigger := 4
+		switch rng.Intn(5) {
+		case 0:
+			trigger = 77 // unknown trigger
+		case 1:
+			j = common.Checkpoint{Epoch: 2, Root: mkRoot(77)} // unknown justified root
+		case 2:
+			j, fin = common.Checkpoint{Epoch: 1, Root: mkRoot(2)}, common.Checkpoint{Epoch: 2, Root: mkRoot(3)} // justified < finalized
+		}
+		f.fc.UpdateJustified(context.Background(), mkRoot(trigger), j, fin, func() ([]forkchoice.Gwei, error) { return gweis([]int{10, 20, 32, 5}), nil })
 	case "Justified":
 		f.fc.Justified()
 	case "Finalized":
 		f.fc.Finalized()
 	case "ProcessAttestation":
-		f.fc.ProcessAttestation(common.ValidatorIndex(rng.Intn(3)), mkRoot(r), common.Slot(slotOf[r]))
+		f.fc.ProcessAttestation(common.ValidatorIndex(rng.Intn(5)), mkRoot(r), common.Slot(slotOf[r]))
 	case "CanonicalChain":
 		f.fc.CanonicalChain(mkRoot(r), common.Slot(slotOf[r]))
 	case "ProcessSlot":
-		f.fc.ProcessSlot(mkRoot(r), common.Slot(slotOf[r]+1+rng.Intn(2)), 0, 0)
+		// documented precondition: known parent, later slot
+		if r == 77 {
+			r = 1
+		}
+		f.fc.ProcessSlot(mkRoot(r), common.Slot(map[int]int{1: 0, 2: 1, 3: 2, 4: 3}[r]+1+rng.Intn(2)), 0, 0)
 	case "ProcessBlock":
 		n := int(atomic.AddInt32(&f.next, 1))
 		f.fc.ProcessBlock(mkRoot(r), mkRoot(n), common.Slot(slotOf[r]+1), 0, 0)
@@ -128,6 +154,8 @@ func newPkFix(rng *rand.Rand) fixture {
 	return &pkFix{parent: p, child: ch, n: n, childLen: at + 1}
 }
 
+func (f *pkFix) methods() []string { return []string{"Pubkey", "ValidatorIndex", "Pubkey.Pubkey", "AddValidator"} }
+
 func (f *pkFix) call(m string, rng *rand.Rand, g int) bool {
 	h := f.parent
 	onChild := rng.Intn(2) == 0
@@ -136,9 +164,9 @@ func (f *pkFix) call(m string, rng *rand.Rand, g int) bool {
 	}
 	switch m {
 	case "Pubkey":
-		h.Pubkey(common.ValidatorIndex(rng.Intn(f.n + 1)))
+		h.Pubkey(common.ValidatorIndex(rng.Intn(f.n + 3)))
 	case "ValidatorIndex":
-		h.ValidatorIndex(keyBytes[rng.Intn(f.n+1)])
+		h.ValidatorIndex(keyBytes[rng.Intn(f.n+12)])
 	case "Pubkey.Pubkey":
 		if cp, ok := h.Pubkey(common.ValidatorIndex(rng.Intn(f.n))); ok && cp != nil {
 			cp.Pubkey()
@@ -171,6 +199,8 @@ func newCpFix(rng *rand.Rand) fixture {
 	initKeys()
 	return &cpFix{cp: &common.CachedPubkey{Compressed: keyBytes[rng.Intn(8)]}}
 }
+
+func (f *cpFix) methods() []string { return []string{"Pubkey"} }
 
 func (f *cpFix) call(m string, rng *rand.Rand, g int) bool {
 	if m != "Pubkey" {
@@ -229,13 +259,27 @@ func (f *poolFix) att(rng *rand.Rand, slot int) *phase0.Attestation {
 		Signature: sigOf(fmt.Sprint("p", atomic.AddInt32(&f.n, 1)))}
 }
 
+var poolMethods = map[string][]string{
+	"AttestationPool":      {"AddAttestation", "Search", "Prune", "Packing"},
+	"AttesterSlashingPool": {"AddAttesterSlashing", "All", "Pack"},
+	"ProposerSlashingPool": {"AddProposerSlashing", "All", "Pack"},
+	"VoluntaryExitPool":    {"AddVoluntaryExit", "All", "Pack"},
+	"SyncCommitteePool":    {"AddSyncCommitteeMessage", "AddSyncCommitteeContribution", "PackAggregate", "PackContribution", "Reset"},
+}
+
+func (f *poolFix) methods() []string { return poolMethods[f.comp] }
+
 func (f *poolFix) call(m string, rng *rand.Rand, g int) bool {
 	ctx := context.Background()
 	s := f.s
 	switch f.comp + "." + m {
 	case "AttestationPool.AddAttestation":
 		slot := rng.Intn(12)
-		s.ap.AddAttestation(ctx, f.att(rng, slot), committeeIdx(slot, 0, 3))
+		a := f.att(rng, slot)
+		if rng.Intn(6) == 0 {
+			a.AggregationBits = bitlist([]int{0, 0, 0}) // refused: empty attestation
+		}
+		s.ap.AddAttestation(ctx, a, committeeIdx(slot, 0, 3))
 	case "AttestationPool.Search":
 		if f.full {
 			s.ap.Search()
@@ -270,9 +314,17 @@ func (f *poolFix) call(m string, rng *rand.Rand, g int) bool {
 	case "VoluntaryExitPool.Pack":
 		s.vep.Pack(nil, 1)
 	case "SyncCommitteePool.AddSyncCommitteeMessage":
-		s.scp.AddSyncCommitteeMessage(ctx, &altair.SyncCommitteeMessage{Slot: common.Slot(4 + rng.Intn(3)), ValidatorIndex: common.ValidatorIndex(rng.Intn(4))})
+		slot := 4 + rng.Intn(3)
+		if rng.Intn(5) == 0 {
+			slot = 20 // outside the window: refused
+		}
+		s.scp.AddSyncCommitteeMessage(ctx, &altair.SyncCommitteeMessage{Slot: common.Slot(slot), ValidatorIndex: common.ValidatorIndex(rng.Intn(4))})
 	case "SyncCommitteePool.AddSyncCommitteeContribution":
-		s.scp.AddSyncCommitteeContribution(ctx, &altair.SyncCommitteeContribution{Slot: common.Slot(4 + rng.Intn(3)),
+		cslot := 4 + rng.Intn(3)
+		if rng.Intn(5) == 0 {
+			cslot = 20
+		}
+		s.scp.AddSyncCommitteeContribution(ctx, &altair.SyncCommitteeContribution{Slot: common.Slot(cslot),
 			SubcommitteeIndex: view.Uint64View(rng.Intn(2)), AggregationBits: altair.SyncCommitteeSubnetBits{1}})
 	case "SyncCommitteePool.PackAggregate":
 		s.scp.PackAggregate(ctx, 5, common.Root{}, nil)
@@ -321,14 +373,20 @@ func runPair(comp, a, b string, iters int, seed int64, single bool) int {
 		go func() {
 			f := mk(rand.New(rand.NewSource(seeds[2]))) // under the watchdog too: the set-up calls the component
 			if single {
+				// one goroutine: method a with many argument classes (so that its error / early-return paths run too),
+				// then every method of the component once: a lock leaked by any path of a blocks one of them
 				r := rand.New(rand.NewSource(seeds[0]))
-				if !f.call(a, r, 0) {
-					done <- 4
-					return
+				for k := 0; k < pairCalls; k++ {
+					if !f.call(a, r, 0) {
+						done <- 4
+						return
+					}
 				}
-				f.call(a, r, 0) // a second call on the same instance: a leaked lock blocks here
 				if b != "" {
 					f.call(b, r, 0)
+				}
+				for _, m := range f.methods() {
+					f.call(m, r, 0)
 				}
 				done <- 0
 				return
